@@ -574,7 +574,8 @@ func (pc *PeerConnection) SetConfiguration(configuration Configuration) error { 
 				return &rtcerr.InvalidModificationError{Err: ErrModifyingCertificates}
 			}
 		}
-		pc.configuration.Certificates = configuration.Certificates
+		// The certificates are unchanged: keep the connection's own list rather than
+		// adopting the caller's slice, which the caller remains free to modify.
 	}
 
 	// https://www.w3.org/TR/webrtc/#set-the-configuration (step #3.4)
